@@ -1113,6 +1113,117 @@ where
         }
         result
     }
+
+    /// Grows the storage structure to accommodate more data.
+    #[inline(always)]
+    fn grow(&mut self) -> (r: bool)
+        requires old(self).wf(), old(self).s_len() == old(self).s_cap()
+        ensures final(self).wf(),
+            r == (old(self).s_cap() < 0x100_0000),
+            !r ==> final(self).s_cap() == old(self).s_cap(),
+            r ==> final(self).s_cap() > old(self).s_cap() && final(self).s_cap() <= 0x100_0000,
+            final(self).s_len() == old(self).s_len(),
+            final(self).s_ver() == old(self).s_ver(),
+            forall|i: int| 0 <= i < old(self).s_cap() ==> #[trigger] final(self).s_ents()[i] == old(self).s_ents()[i],
+            forall|i: int| 0 <= i < old(self).s_cap() ==> #[trigger] final(self).s_d0()[i] == old(self).s_d0()[i],
+            forall|i: int| 0 <= i < old(self).s_cap() ==> #[trigger] final(self).s_slots()[i] == old(self).s_slots()[i],
+    {
+        broadcast use lemma_max_cap;
+        if self.capacity() >= MAX_DATA_CAPACITY as usize {
+            return false; // Out of room to grow
+        }
+
+        let new_capacity = self.capacity.saturating_add(1).saturating_mul(2);
+        let new_capacity = new_capacity.min(MAX_DATA_CAPACITY as usize);
+        let ghost mut g1: Seq<Option<Slot>> = Seq::empty();
+
+        unsafe {
+            // SAFETY: We know new_capacity > self.capacity and is nonzero.
+            self.slots.grow(self.capacity, new_capacity);
+            self.entities.grow(self.capacity, new_capacity);
+            self.d0.get_mut().grow(self.capacity, new_capacity);
+            proof { g1 = self.slots.cells(); }
+
+            // SAFETY: We know self.len <= MAX_DATA_CAPACITY.
+            let free_start = TrimmedIndex::new_usize(self.len).unwrap_unchecked();
+            // SAFETY: We just grew the slot data array up to new_capacity.
+            let slots = self.slots.raw_data(new_capacity);
+
+            // Populate the end of the list as the new free list. We are
+            // assuming here that, because we are full, every slot is occupied
+            // and so our free list is entirely empty. Thus, we need a new one.
+            self.free_head = Slot::populate_free_list(free_start, slots);
+
+            // Update our capacity
+            self.capacity = new_capacity;
+        }
+        proof {
+            lemma_chain_init(self.s_slots(), old(self).s_len() as int, self.s_head());
+            assert(free_chain(self.s_slots(), self.s_head(), (self.s_cap() - self.s_len()) as nat));
+            assert forall|s: int| 0 <= s < old(self).s_cap() implies #[trigger] self.s_slots()[s] == old(self).s_slots()[s] by {
+                assert(g1[s] == old(self).s_slots()[s]);
+            }
+            assert forall|s: int| 0 <= s < self.s_cap() implies #[trigger] self.s_slots()[s] is Some by {
+                if s < old(self).s_cap() { assert(old(self).s_slots()[s] is Some); }
+            }
+            assert(forall|i: int| 0 <= i < self.s_cap() ==> (#[trigger] self.s_ents()[i] is Some <==> i < self.s_len()));
+            assert(forall|i: int| 0 <= i < self.s_cap() ==> (#[trigger] self.s_d0()[i] is Some <==> i < self.s_len()));
+            assert forall|i: int| 0 <= i < self.s_len() implies #[trigger] self.dense_ok(i) by { assert(old(self).dense_ok(i)); }
+            assert forall|s: int| 0 <= s < self.s_cap() implies #[trigger] self.sparse_ok(s) by {
+                if s < old(self).s_cap() { assert(old(self).sparse_ok(s)); }
+            }
+        }
+
+        // Success!
+        true
+    }
+
+    #[inline(always)]
+    pub fn push<D: Components1<T0>>(
+        &mut self,
+        data: D,
+    ) -> (entity: Entity<A>)
+        requires old(self).wf()
+        ensures final(self).wf(), final(self).s_len() == old(self).s_len() + 1,
+            final(self).s_cap() >= old(self).s_cap(),
+            final(self).s_ents()[old(self).s_len() as int] == Some(entity),
+            final(self).s_d0()[old(self).s_len() as int] == Some(data.c0()),
+            forall|i: int| 0 <= i < old(self).s_len() ==> #[trigger] final(self).s_ents()[i] == old(self).s_ents()[i],
+            forall|i: int| 0 <= i < old(self).s_len() ==> #[trigger] final(self).s_d0()[i] == old(self).s_d0()[i],
+    {
+        if self.len >= self.capacity() {
+            // If we're full, we should also be at the end of the slot free list.
+            debug_assert!(self.free_head.is_free_end());
+
+            if self.grow() == false {
+                gecs_panic();
+            }
+        }
+
+        unsafe { self.force_create(data) }
+    }
+
+    #[inline(always)]
+    pub fn push_within_capacity<D: Components1<T0>>(
+        &mut self,
+        data: D,
+    ) -> (r: Result<Entity<A>, D>)
+        requires old(self).wf()
+        ensures final(self).wf(),
+            r is Ok <==> old(self).s_len() < old(self).s_cap(),
+            final(self).s_cap() == old(self).s_cap(),
+            r is Err ==> r->Err_0 == data && *final(self) == *old(self),
+            r is Ok ==> final(self).s_len() == old(self).s_len() + 1,
+    {
+        if self.len >= self.capacity() {
+            // If we're full, we should also be at the end of the slot free list.
+            debug_assert!(self.free_head.is_free_end());
+
+            return Err(data);
+        }
+
+        Ok(unsafe { self.force_create(data) })
+    }
 }
 
 // ---------------- free-list lemmas (ghost only)
